@@ -161,7 +161,8 @@ inductive Ev
 deriving Repr
 
 structure St where
-  m : PMutex
+  /-- owner of the internal default (non-recursive) mutex `mdata` -/
+  m : Option Tid
   flag : Bool
   pc : Tid → Pc
   ret : Tid → Option Val
@@ -171,7 +172,7 @@ structure St where
   hist : List Ev
 
 def init (set : Bool) (now spur : Nat) : St :=
-  ⟨⟨false, none, 0⟩, set, fun _ => .idle, fun _ => none, now, spur, []⟩
+  ⟨none, set, fun _ => .idle, fun _ => none, now, spur, []⟩
 
 def goto (s : St) (t : Tid) (p : Pc) : St := { s with pc := upd s.pc t p }
 def done (s : St) (t : Tid) (v : Val) : St := { s with pc := upd s.pc t .idle, ret := upd s.ret t (some v) }
@@ -196,33 +197,33 @@ def step (s : St) (t : Tid) : Act Op → Option St
     -- set(): lock; signaled = true; broadcast; unlock   (order after fixes/sync/0001: the broadcast is issued
     -- while the mutex is held, so that the unlock is set()'s last access to the object)
     | .setLock =>
-      if alt = 0 ∧ s.m.canLock t then
-        some (goto { s with m := s.m.lock t, flag := true, hist := .write true :: s.hist } t .setBcast) else none
+      if alt = 0 ∧ s.m = none then
+        some (goto { s with m := some t, flag := true, hist := .write true :: s.hist } t .setBcast) else none
     | .setBcast =>
       if alt = 0 then
         some (goto { s with pc := fun u => match s.pc u with | .wBlocked dl => .wRelock dl false | p => p } t .setUnlock)
       else none
     | .setUnlock =>
-      if alt = 0 then (s.m.unlock t).map fun m' => done { s with m := m' } t .unit else none
+      if alt = 0 ∧ s.m = some t then some (done { s with m := none } t .unit) else none
     -- reset(): lock; signaled = false; unlock
     | .resetLock =>
-      if alt = 0 ∧ s.m.canLock t then
-        some (goto { s with m := s.m.lock t, flag := false, hist := .write false :: s.hist } t .resetUnlock) else none
+      if alt = 0 ∧ s.m = none then
+        some (goto { s with m := some t, flag := false, hist := .write false :: s.hist } t .resetUnlock) else none
     | .resetUnlock =>
-      if alt = 0 then (s.m.unlock t).map fun m' => done { s with m := m' } t .unit else none
+      if alt = 0 ∧ s.m = some t then some (done { s with m := none } t .unit) else none
     -- wait() / wait(timeout)
     | .wLock dl =>
-      if alt = 0 ∧ s.m.canLock t then some (loopHead { s with m := s.m.lock t } t dl) else none
+      if alt = 0 ∧ s.m = none then some (loopHead { s with m := some t } t dl) else none
     | .wUnlock r dl =>
-      if alt = 0 then
-        (s.m.unlock t).map fun m' => done { s with m := m', hist := .waitRet t r dl s.now :: s.hist } t (.bool r)
+      if alt = 0 ∧ s.m = some t then
+        some (done { s with m := none, hist := .waitRet t r dl s.now :: s.hist } t (.bool r))
       else none
     | .wEnter dl =>         -- pthread_cond_[timed]wait: atomically release the mutex and block
-      if alt = 0 ∧ s.m.owner = some t then
+      if alt = 0 ∧ s.m = some t then
         match dl with
-        | some d => if d.ts.valid then some (goto { s with m := s.m.release } t (.wBlocked dl))
+        | some d => if d.ts.valid then some (goto { s with m := none } t (.wBlocked dl))
                     else some (goto s t (.wUnlock false dl))      -- EINVAL ≠ 0: unlock; return false
-        | none => some (goto { s with m := s.m.release } t (.wBlocked dl))
+        | none => some (goto { s with m := none } t (.wBlocked dl))
       else none
     | .wBlocked dl =>
       if alt = 0 then        -- spurious wake-up
@@ -233,9 +234,9 @@ def step (s : St) (t : Tid) : Act Op → Option St
         | none => none
       else none
     | .wRelock dl timedOut => -- re-acquire the mutex, return from pthread_cond_[timed]wait
-      if alt = 0 ∧ s.m.canLock t then
-        if timedOut then some (goto { s with m := s.m.lock t } t (.wUnlock false dl))
-        else some (loopHead { s with m := s.m.lock t } t dl)
+      if alt = 0 ∧ s.m = none then
+        if timedOut then some (goto { s with m := some t } t (.wUnlock false dl))
+        else some (loopHead { s with m := some t } t dl)
       else none
 
 inductive Reach (set : Bool) (now spur : Nat) : St → Prop
@@ -267,7 +268,8 @@ structure FalseRet where
 deriving Repr
 
 structure St where
-  m : PMutex
+  /-- owner of the monitor's default (non-recursive) mutex `mdata` -/
+  m : Option Tid
   flag : Bool
   /-- wait set of the condition variable in arrival order -/
   waiters : List Tid
@@ -281,7 +283,7 @@ structure St where
   flog : List FalseRet
 
 def init (now spur : Nat) : St :=
-  ⟨⟨false, none, 0⟩, false, [], fun _ => .idle, fun _ => none, now, spur, 0, 0, []⟩
+  ⟨none, false, [], fun _ => .idle, fun _ => none, now, spur, 0, 0, []⟩
 
 def goto (s : St) (t : Tid) (p : Pc) : St := { s with pc := upd s.pc t p }
 def done (s : St) (t : Tid) (v : Val) : St := { s with pc := upd s.pc t .idle, ret := upd s.ret t (some v) }
@@ -302,20 +304,20 @@ def step (s : St) (t : Tid) : Act Op → Option St
   | .run alt =>
     match s.pc t with
     | .idle => none
-    | .lock => if alt = 0 ∧ s.m.canLock t then some (done { s with m := s.m.lock t } t .unit) else none
+    | .lock => if alt = 0 ∧ s.m = none then some (done { s with m := some t } t .unit) else none
     | .tryLock =>
       if alt = 0 then
-        if s.m.canLock t then some (done { s with m := s.m.lock t } t (.bool true)) else some (done s t (.bool false))
+        if s.m = none then some (done { s with m := some t } t (.bool true)) else some (done s t (.bool false))
       else none
-    | .unlock => if alt = 0 then (s.m.unlock t).map fun m' => done { s with m := m' } t .unit else none
+    | .unlock => if alt = 0 ∧ s.m = some t then some (done { s with m := none } t .unit) else none
     -- wait(): for(;;) { pthread_cond_[timed]wait(...) [!= 0 → return false]; if(signaled) { signaled = false; return true; } }
     | .wEnter dl =>
-      if alt = 0 ∧ s.m.owner = some t then
+      if alt = 0 ∧ s.m = some t then
         match dl with
         | some d =>
-          if d.ts.valid then some (goto { s with m := s.m.release, waiters := s.waiters ++ [t] } t (.wBlocked dl false))
+          if d.ts.valid then some (goto { s with m := none, waiters := s.waiters ++ [t] } t (.wBlocked dl false))
           else some (done { s with flog := ⟨t, dl, s.now⟩ :: s.flog } t (.bool false))    -- EINVAL
-        | none => some (goto { s with m := s.m.release, waiters := s.waiters ++ [t] } t (.wBlocked dl false))
+        | none => some (goto { s with m := none, waiters := s.waiters ++ [t] } t (.wBlocked dl false))
       else none
     | .wBlocked dl _ =>
       if alt = 0 then
@@ -328,17 +330,17 @@ def step (s : St) (t : Tid) : Act Op → Option St
         | none => none
       else none
     | .wRelock dl timedOut =>
-      if alt = 0 ∧ s.m.canLock t then
-        if timedOut then some (done { s with m := s.m.lock t, flog := ⟨t, dl, s.now⟩ :: s.flog } t (.bool false))
-        else if s.flag then some (done { s with m := s.m.lock t, flag := false, succ := s.succ + 1 } t (.bool true))
-        else some (goto { s with m := s.m.lock t } t (.wEnter dl))
+      if alt = 0 ∧ s.m = none then
+        if timedOut then some (done { s with m := some t, flog := ⟨t, dl, s.now⟩ :: s.flog } t (.bool false))
+        else if s.flag then some (done { s with m := some t, flag := false, succ := s.succ + 1 } t (.bool true))
+        else some (goto { s with m := some t } t (.wEnter dl))
       else none
     -- set(): lock; signaled = true; unlock; pthread_cond_signal
     | .setLock =>
-      if alt = 0 ∧ s.m.canLock t then
-        some (goto { s with m := s.m.lock t, flag := true, sets := s.sets + 1, pc := fun u => markSaw (s.pc u) } t .setUnlock)
+      if alt = 0 ∧ s.m = none then
+        some (goto { s with m := some t, flag := true, sets := s.sets + 1, pc := fun u => markSaw (s.pc u) } t .setUnlock)
       else none
-    | .setUnlock => if alt = 0 then (s.m.unlock t).map fun m' => goto { s with m := m' } t .setSignal else none
+    | .setUnlock => if alt = 0 ∧ s.m = some t then some (goto { s with m := none } t .setSignal) else none
     | .setSignal =>         -- wakes the chosen waiter if there is any
       match s.waiters[alt]? with
       | some w => some (done { s with waiters := s.waiters.filter (· ≠ w), pc := upd s.pc w (wake (s.pc w)) } t .unit)
